@@ -168,6 +168,39 @@ fn comp3(a: &mut Args, tm: bool) -> String {
     format!("{};; {}", obs, out.trim_end())
 }
 
+// ---------------------------------------------------------------- 2-D primitive pairs through the dispatcher
+use crate::p2::shape::Shape as Shape2;
+fn shapes2(kind: usize, a: d2::Vector<f64>, b: d2::Vector<f64>) -> (Box<dyn Shape2>, Box<dyn Shape2>) {
+    use crate::p2::shape::*;
+    let hs = |n: d2::Vector<f64>| -> Box<dyn Shape2> { Box::new(HalfSpace::new(d2::na::Unit::new_unchecked(n))) };
+    let cu = |he: d2::Vector<f64>| -> Box<dyn Shape2> { Box::new(Cuboid::new(he)) };
+    let ba = |r: f64| -> Box<dyn Shape2> { Box::new(Ball::new(r)) };
+    match kind { 0 => (ba(a.x), ba(b.x)), 1 => (cu(a), ba(b.x)), 2 => (ba(a.x), cu(b)), 3 => (hs(a), cu(b)), _ => (cu(a), hs(b)) }
+}
+/// `seq2 kind a b pred nposes pose*` → `oneshot(flag dist)* ;; manifold after every call`
+fn seq2(a: &mut Args) -> String {
+    use crate::p2::query::{DefaultQueryDispatcher, PersistentQueryDispatcher, QueryDispatcher};
+    let kind = a.u(); let sa = d2::v(a); let sb = d2::v(a); let pred = a.f();
+    let n = a.u();
+    let poses: Vec<_> = (0..n).map(|_| d2::iso(a)).collect();
+    let (s1, s2) = shapes2(kind, sa, sb);
+    let mut manifolds: Vec<M2> = Vec::new();
+    let mut ws = None;
+    let mut obs = String::new();
+    let mut out = String::new();
+    for p in &poses {
+        let hs2 = s2.as_halfspace().is_some();
+        let os = if hs2 { DefaultQueryDispatcher.contact(&p.inverse(), &*s2, &*s1, pred) } else { DefaultQueryDispatcher.contact(p, &*s1, &*s2, pred) };
+        match os { Ok(Some(c)) => obs += &format!("1 {} ", ff(c.dist)), _ => obs += "0 0000000000000000 " }
+        let r = DefaultQueryDispatcher.contact_manifolds(p, &*s1, &*s2, pred, &mut manifolds, &mut ws);
+        if r.is_err() { return "unsupported".into(); }
+        if manifolds.len() != 1 { return format!("nmanifolds {}", manifolds.len()); }
+        if !out.is_empty() { out.push(' '); }
+        out += &fman2(&manifolds[0]);
+    }
+    format!("{};; {}", obs, out)
+}
+
 // ---------------------------------------------------------------- exec
 pub fn exec(func: &str, a: &mut Args) -> String {
     match func {
@@ -190,6 +223,7 @@ pub fn exec(func: &str, a: &mut Args) -> String {
             crate::p3::query::details::contact_manifold_ball_ball(&p, &crate::p3::shape::Ball::new(r1), &crate::p3::shape::Ball::new(r2), pr, &mut m);
             fman3(&m) }
         "seq3" => seq3(a),
+        "seq2" => seq2(a),
         "comp3" => comp3(a, false),
         "tm3" => comp3(a, true),
         _ => "nofn".into(),
@@ -469,6 +503,49 @@ fn gen_tm3(r: &mut Rng, lat: bool, maxposes: usize) -> (String, String) {
     ("tm3".into(), s)
 }
 
+fn gen_seq2(r: &mut Rng, lat: bool, kind: usize, maxposes: usize) -> (String, String) {
+    let ball = |r: &mut Rng| d2::Vector::new(r.pos_extent(lat).min(8.0).max(0.05), 0.0);
+    let cub = |r: &mut Rng| { let h = d2::gen_he(r, lat); d2::Vector::new(h.x.min(8.0).max(0.05), h.y.min(8.0).max(0.05)) };
+    let (a, b) = match kind { 0 => (ball(r), ball(r)), 1 => (cub(r), ball(r)), 2 => (ball(r), cub(r)), 3 => (unit2(r, lat), cub(r)), _ => (cub(r), unit2(r, lat)) };
+    let scale = match kind { 0 => a.x + b.x, 1 => a.norm() + b.x, 2 => a.x + b.norm(), 3 => b.norm(), _ => a.norm() }.max(0.1);
+    let (re, im) = d2::gen_rot(r, lat);
+    let rot = d2::na::Unit::new_unchecked(d2::na::Complex::new(re, im));
+    let f = |r: &mut Rng, h: f64| if lat { *r.pick(&[0.0, 1.0, -1.0, 0.5, 1.5, -1.25]) * h } else { r.uniform(-1.4, 1.4) * h };
+    let t = match kind {
+        0 => { let gap = if lat { *r.pick(&[0.0, 0.25, -0.25, -100.0]) } else { r.uniform(-0.3, 0.3) * scale.min(1.0) };
+               if gap == -100.0 { d2::Vector::zeros() } else { unit2(r, lat) * (a.x + b.x + gap) } }
+        1 => { let c = d2::Vector::new(f(r, a.x), f(r, a.y)); if r.below(3) == 0 { c + unit2(r, lat) * b.x } else { c } }
+        2 => { let c = d2::Vector::new(f(r, b.x), f(r, b.y)); -(rot * c) }
+        3 => { let h = if lat { *r.pick(&[0.0, 0.25, 0.5, 1.0, -0.25]) } else { r.uniform(-0.3, 1.3) }; a * (h * scale) + d2::gen_v(r, lat, 2.0) * 0.5 }
+        _ => { let h = if lat { *r.pick(&[0.0, 0.25, 0.5, 1.0, -0.25]) } else { r.uniform(-0.3, 1.3) }; -(rot * b) * (h * scale) + d2::gen_v(r, lat, 2.0) * 0.5 }
+    };
+    let base = d2::Isometry::from_parts(d2::na::Translation2::from(t), rot);
+    let n = 1 + r.below(maxposes as u64) as usize;
+    let mut poses = vec![base];
+    let mut cur = base;
+    for _ in 1..n {
+        let k = r.below(20);
+        if lat {
+            if k < 11 { cur.translation.vector += d2::gen_v(r, true, 1.0) * 0.03125; }
+            else if k < 14 { cur.translation.vector += d2::gen_v(r, true, 1.0) * 0.25; let (re, im) = d2::gen_rot(r, true); cur.rotation = d2::na::Unit::new_unchecked(d2::na::Complex::new(re, im)); }
+            else if k < 16 { cur.translation.vector += unit2(r, true) * (64.0 * scale); }
+            else if k < 19 { cur = base; cur.translation.vector += d2::gen_v(r, true, 1.0) * 0.0625; }
+        } else {
+            if k < 11 { let s = r.logu(1e-5, 3e-2) * scale; cur.translation.vector += d2::Vector::new(r.uniform(-1.0, 1.0), r.uniform(-1.0, 1.0)) * s;
+                cur.rotation = d2::na::UnitComplex::new(r.uniform(-0.02, 0.02)) * cur.rotation; }
+            else if k < 14 { cur.translation.vector += d2::Vector::new(r.uniform(-1.0, 1.0), r.uniform(-1.0, 1.0)) * (0.3 * scale);
+                cur.rotation = d2::na::UnitComplex::new(r.uniform(-1.0, 1.0)) * cur.rotation; }
+            else if k < 16 { cur.translation.vector += unit2(r, false) * (r.uniform(5.0, 50.0) * scale); }
+            else if k < 19 { cur = base; cur.translation.vector += d2::Vector::new(r.uniform(-1.0, 1.0), r.uniform(-1.0, 1.0)) * (0.02 * scale); }
+        }
+        poses.push(cur);
+    }
+    let pred = if lat { *r.pick(&[0.0, 0.25, 0.5]) } else { *r.pick(&[0.0, 1e-3, 0.05, 0.2]) * scale.min(2.0) };
+    let mut s = format!("{} {} {} {} {}", kind, d2::hv(&a), d2::hv(&b), hx(pred), n);
+    for p in &poses { s += " "; s += &d2::hiso(p); }
+    ("seq2".into(), s)
+}
+
 pub fn gen(r: &mut Rng, thorough: bool) -> Vec<(String, String)> {
     let k = if thorough { 10 } else { 1 };
     let mut v = Vec::new();
@@ -501,6 +578,10 @@ pub fn gen(r: &mut Rng, thorough: bool) -> Vec<(String, String)> {
         let lat = it % 2 == 0;
         v.push(gen_comp3(r, lat, 20));
         if it % 2 == 0 { v.push(gen_tm3(r, it % 4 == 0, 20)); }
+    }
+    for it in 0..90 * k {
+        let lat = it % 2 == 0;
+        for kind in 0..5 { v.push(gen_seq2(r, lat, kind, 20)); }
     }
     v
 }
